@@ -84,6 +84,9 @@ pub fn escape_str(s: &str) -> String {
         match c {
             '"' => o.push_str("\\\""),
             '\\' => o.push_str("\\\\"),
+            '\n' => o.push_str("\\n"),
+            '\t' => o.push_str("\\t"),
+            '\r' => o.push_str("\\r"),
             c => o.push(c),
         }
     }
